@@ -269,8 +269,11 @@ pub fn gen_case(rng: &mut Rng) -> Case {
     let bodiless = status == 204 || status == 304 || method == "HEAD";
     let mut closes = rng.chance(1, 2);
     if bodiless {
-        if rng.chance(1, 2) {
-            resp.extend_from_slice(format!("Content-Length: {}\r\n", rbody_len).as_bytes());
+        // what the origin would announce for the GET: a length, chunked coding, or nothing
+        match rng.below(4) {
+            0 | 1 => resp.extend_from_slice(format!("Content-Length: {}\r\n", rbody_len).as_bytes()),
+            2 => resp.extend_from_slice(b"Transfer-Encoding: chunked\r\n"),
+            _ => {}
         }
         resp.extend_from_slice(b"\r\n");
     } else if framing < 4 {
@@ -754,6 +757,14 @@ pub fn run(ctx: &mut Ctx) {
     // bytes beyond the announced Content-Length, the body accepted partly
     cases.push(base(2, vec![b"HTTP/1.1 200 OK\r\nContent-Length: 10\r\n\r\n0123456789XY"], vec![8], true));
     cases.push(base(11, vec![b"HTTP/1.1 200 OK\r\nContent-Length: 5\r\n\r\n", b"01234EXTRA"], vec![], true));
+    // bodiless responses that announce a chunked body (a HEAD answered with the GET's headers, 304 / 204): the origin stays silent
+    for version in [11u8, 2, 3] {
+        let mut c = base(version, vec![b"HTTP/1.1 200 OK\r\nTransfer-Encoding: chunked\r\n\r\n"], vec![], false);
+        c.method = "HEAD".into();
+        cases.push(c);
+        cases.push(base(version, vec![b"HTTP/1.1 304 Not Modified\r\nTransfer-Encoding: chunked\r\n\r\n"], vec![], false));
+        cases.push(base(version, vec![b"HTTP/1.1 204 No Content\r\nTransfer-Encoding: chunked\r\n", b"\r\n"], vec![], true));
+    }
     for c in cases.drain(..).collect::<Vec<_>>() {
         emit_case(ctx, &c);
     }
